@@ -2,7 +2,9 @@
 //! vdrive: executes schedules against the real iroh-docs code and records ndjson traces.
 //! It contains no oracle; TLC decides.
 
+mod docs;
 mod heads;
+mod query;
 mod replica;
 mod session;
 mod world;
@@ -76,6 +78,18 @@ fn main() {
             for (i, sc) in scs.iter().enumerate() {
                 rt.block_on(session::run_scenario(&w, sc, i, seed, &dir, &mut trace, &mut sum));
             }
+        }
+        "query" => {
+            let w = World::new(seed, 3, 3);
+            let mut rng = Rng::new(seed);
+            query::run(&w, seed, &mut rng, args.num("n", 10) as usize, args.num("sample", 500) as usize,
+                       &dir, &mut trace, &mut sum);
+        }
+        "docs" => {
+            let w = World::new(seed, 3, 7);
+            let mut rng = Rng::new(seed);
+            let scheds = args.kv.get("schedules").map(|p| read_schedules(p)).unwrap_or_default();
+            docs::run(&w, seed, &mut rng, scheds, args.num("n", 60) as usize, &dir, &mut trace, &mut sum);
         }
         "heads" => {
             let w = World::new(seed, 6, 2);
